@@ -11,7 +11,7 @@ From Utp Require Import Sock.Dispatcher Sock.DispObs.
 From Utp Require Import Conn.C10_Pred Conn.C02_Pred.
 From Utp Require Import Conn.C17_Pred Conn.C03_Pred.
 From Utp Require Import Conn.C05_Pred Conn.C06_Pred.
-From Utp Require Import Conn.C07_Pred Conn.C18_Pred Conn.C09_Pred.
+From Utp Require Import Conn.C07_Pred Conn.C07_Pred2 Conn.C18_Pred Conn.C09_Pred.
 From Utp Require Import Pair.Pair.
 From Utp Require Import Conn.C04_Pred Conn.C0506_Pred2 Conn.C14C08_Pred.
 From Utp Require Import Conn.Recovery Conn.Msg Conn.VSockRec Conn.VSock Conn.VSockRun Conn.VObs.
@@ -39,6 +39,7 @@ Extraction "model"
   c06_backoff_ok c06_cap_ok c06_emitted_live_ok c06_fast_retx_ok c06_stable_plen_ok c06_joint_ok c06_rp_exit_ok
   ACK_DELAY IMMEDIATE_ACK_EVERY_RMSS
   c07_immediate_ok c07_pre_monitor c07_delayed_ok c07_fires_ok c07_idle_silent_partial c07_window_update_ok
+  c07_reasm_change_ok c07_trigger_ok c07_dist_ok c07_pre_monitor_g
   c18_nagle_ok c18_pre_monitor
   pair_new_cubic ptrace_cubic c01_dir_bad c01_dir_ok c01_pair_ok c01_pair_guarded c01_kf1_class c01_kf1_class_dir
   c01_d17_class c01_d17_class_dir dchk0 pkt_size hacc_add hacc0
